@@ -154,6 +154,48 @@ def rootdict(d, env):
     return [[evaluate(sympy_of(k), env).ser(), int(sympy_of(n))] for k, n in d.items()]
 
 
+def minpoly_groups(d, env):
+    """roots that are not Gaussian rationals: instantiate, take sympy's minimal polynomial over Q of every
+    reported number (oracle, cross-checked numerically at 60 digits: can only withdraw), group the roots by it.
+    returns [[coeffs low-first (rationals), multiplicity, number of distinct reported roots in the group], ...]"""
+    x = sym.Symbol('x_mp')
+    sub = {}
+    for k_ in d:
+        for sy in sympy_of(k_).free_symbols:
+            if sy.name not in env:
+                raise NotExact('free symbol ' + sy.name)
+            sub[sy] = gsym(env[sy.name])
+    groups = {}
+    for k_, n_ in d.items():
+        r_ = sympy_of(k_).xreplace(sub)
+        if 'pi' in env:
+            r_ = r_.xreplace({sym.pi: gsym(env['pi'])})
+        mp = sym.Poly(sym.minimal_polynomial(r_, x), x)
+        if abs(complex(sym.N(mp.as_expr().subs(x, r_), 60))) > 1e-40:
+            raise NotExact('minimal polynomial cross-check failed')
+        mp = mp.monic()
+        key = tuple(mp.all_coeffs())
+        g = groups.setdefault(key, {'mult': set(), 'roots': []})
+        g['mult'].add(int(sympy_of(n_)))
+        val = complex(sym.N(r_, 40))
+        if all(abs(val - v2) > 1e-12 for v2 in g['roots']):
+            g['roots'].append(val)
+    out = []
+    for key, g in groups.items():
+        if len(g['mult']) != 1:
+            out.append([[str(c_) for c_ in reversed(key)], -1, len(g['roots'])])      # conjugates reported with different multiplicities
+        else:
+            out.append([[['%d/%d' % (sym.Rational(c_).p, sym.Rational(c_).q), '0/1'] for c_ in reversed(key)], g['mult'].pop(), len(g['roots'])])
+    return out
+
+
+def roots_or_minpolys(r, d, env):
+    try:
+        r['roots'] = rootdict(d, env)
+    except NotExact:
+        r['minpolys'] = minpoly_groups(d, env)
+
+
 def run_case(c):
     import time
     t_start = time.time()
@@ -204,7 +246,8 @@ def run_case(c):
             r = {}
             if name in ('canonical', 'general', 'standard', 'mixedfrac', 'partfrac', 'recippartfrac', 'ZPK', 'factored',
                         'timeconst', 'expandcanonical', 'as_continued_fraction', 'simplify', 'simplify_terms',
-                        'simplify_factors', 'simplify_conjugates'):
+                        'simplify_factors', 'simplify_conjugates', 'as_continued_fraction_inverse', 'timeconst_terms',
+                        'as_monic_terms', 'as_nonmonic_terms', 'expand_response', 'as_sum'):
                 res = getattr(H, name)(**kw)
                 r['vals'] = evs(res, env, vname, pts)
                 r['str'] = str(res)[:200]
@@ -237,9 +280,9 @@ def run_case(c):
                 ds = D_.sympy
                 r['D_is_poly'] = bool(ds.is_polynomial(var)) and not ds.has(sym.exp) and not ds.atoms(sym.core.function.AppliedUndef)
             elif name == 'poles':
-                r['roots'] = rootdict(H.poles(**kw), env)
+                roots_or_minpolys(r, H.poles(**kw), env)
             elif name == 'zeros':
-                r['roots'] = rootdict(H.zeros(**kw), env)
+                roots_or_minpolys(r, H.zeros(**kw), env)
             elif name in ('poles_pairs', 'zeros_pairs', 'N_roots_pairs', 'D_roots_pairs'):
                 # the public pairs=True interfaces (dict form and list form)
                 src = {'poles_pairs': lambda **k_: H.poles(**k_), 'zeros_pairs': lambda **k_: H.zeros(**k_),
@@ -295,6 +338,20 @@ def run_case(c):
                 r['R'] = [evaluate(sym.sympify(x), env).ser() for x in R]
                 r['P'] = [evaluate(sym.sympify(x), env).ser() for x in P]
                 r['O'] = [int(o) for o in O]
+            elif name == 'cfi_coeffs':
+                cs = H.continued_fraction_inverse_coeffs()
+                r['coeffs'] = [evs(x, env, vname, pts) for x in cs]
+            elif name == 'as_N_D_monic':
+                N, D_ = H.as_N_D(monic_denominator=True)
+                r['N'] = evs(N, env, vname, pts)
+                r['D'] = evs(D_, env, vname, pts)
+                r['Dpoly'] = poly_coeffs(D_, var, env)
+            elif name == 'coeffs':
+                # coefficient lists (highest power first) of the numerator / denominator polynomials
+                for nm_, P_ in (('N', H.N), ('D', H.D)):
+                    r[nm_ + 'c'] = [evaluate(sympy_of(x), env).ser() for x in P_.coeffs()]
+                    r[nm_ + 'n'] = [evaluate(sympy_of(x), env).ser() for x in P_.normcoeffs()]
+                    r[nm_] = evs(P_, env, vname, pts)
             elif name == 'cf_coeffs':
                 cs = H.continued_fraction_coeffs()
                 r['coeffs'] = [evs(x, env, vname, pts) for x in cs]
